@@ -464,6 +464,10 @@ pub fn c05_after(run: &mut Run, op: &Op, ret: Option<u32>, pre: C05Pre, out: &mu
                 let listed = run.model.iter_rel(*r);
                 let count = listed.iter().filter(|t| **t == rids).count();
                 if count != 1 { bad("insert-iter", format!("after insert_{}({ids:?}) the iterator yields the tuple {count} times", th.rels[*r].name)); }
+                // "reported once" up to equality: no second row whose components are equal to the inserted ones
+                let arity = &th.rels[*r].arity;
+                let equal_rows = listed.iter().filter(|t| t.iter().enumerate().all(|(i, x)| run.model.are_equal(arity[i], *x, ids[i]))).count();
+                if count == 1 && equal_rows != 1 { bad("insert-iter-equal", format!("after insert_{}({ids:?}) the iterator yields {equal_rows} rows equal to the inserted tuple: {:?}", th.rels[*r].name, listed)); }
                 if th.rels[*r].is_func {
                     let n = ids.len() - 1;
                     if !pre.had_value {
